@@ -172,11 +172,13 @@ GnnOK(ts, sets, f, k, obs) ==
   IN IF defd = {} THEN obs = <<0, 1>> ELSE RatEq(obs, num, M * Cardinality(defd))
 
 \* ---- mean descendants ---------------------------------------------------------------------
+\* "the total span of all genomes in sample_sets[k] that inherit from the node, divided by the total span of the genome on which
+\* the node is an ancestor to any sample in the tree sequence" (docstring of mean_descendants)
 MeanDescOK(ts, sets, u, k, obs) ==
-  LET S == AllSets(sets) R == UNION {S[t] : t \in 1..Len(S)}
-      defd == {x \in Cells(0, ts.L) : Desc(ParentAt(ts, x), u) \cap R # {}}
-      num == Sum(defd, LAMBDA x : Cardinality(Desc(ParentAt(ts, x), u) \cap S[k]))
-  IN IF defd = {} THEN obs = <<0, 1>> ELSE RatEq(obs, num, Cardinality(defd))
+  LET S == AllSets(sets)
+      defd == {x \in Cells(0, ts.L) : Desc(ParentAt(ts, x), u) \cap SamplesOf(ts) # {}}
+      num == Sum(Cells(0, ts.L), LAMBDA x : Cardinality(Desc(ParentAt(ts, x), u) \cap S[k]))
+  IN IF defd = {} THEN (num = 0 => obs = <<0, 1>>) ELSE RatEq(obs, num, Cardinality(defd))
 
 \* ---- pair coalescence counts (per node, not normalised) ------------------------------------
 \* a pair coalesces at u when its two lineages join there, i.e. it comes from two different child subtrees of u
@@ -202,9 +204,11 @@ RF(ts, x, y, rx, ry) == LET A == CladesOfTree(ts, ParentAt(ts, x), rx) B == Clad
                         IN Cardinality((A \ B) \cup (B \ A))
 \* squared KC distance for lambda in {0, 1}: pairs contribute (depth of / time from the root to) their MRCA,
 \* single samples 1 / their branch length
-KcPair(ts, par, root, lam, v, w) == LET m == MRCAIn(par, v, w) IN IF lam = 0 THEN DepthOf(par, m) ELSE TimeOf(ts, root) - TimeOf(ts, m)
-KcSingle(ts, par, lam, v) == IF lam = 0 THEN 1 ELSE (IF par[v] = NULL THEN 0 ELSE TimeOf(ts, par[v]) - TimeOf(ts, v))
-KcSquared(ts, x, y, rx, ry, lam) ==
+\* lam is given in halves: 0, 1 (= 1/2) or 2 (= 1); every entry of the vector is 2 ((1 - lambda) m + lambda M), so that the sum of squared
+\* differences is 4 times the squared distance
+KcPair(ts, par, root, lam, v, w) == LET m == MRCAIn(par, v, w) IN (2 - lam) * DepthOf(par, m) + lam * (TimeOf(ts, root) - TimeOf(ts, m))
+KcSingle(ts, par, lam, v) == (2 - lam) * 1 + lam * (IF par[v] = NULL THEN 0 ELSE TimeOf(ts, par[v]) - TimeOf(ts, v))
+KcSquared4(ts, x, y, rx, ry, lam) ==
   LET px == ParentAt(ts, x) py == ParentAt(ts, y) Sm == SamplesOf(ts) IN
   Sum({pr \in Sm \X Sm : pr[1] < pr[2]}, LAMBDA pr : LET d == KcPair(ts, px, rx, lam, pr[1], pr[2]) - KcPair(ts, py, ry, lam, pr[1], pr[2]) IN d * d)
   + Sum(Sm, LAMBDA v : LET d == KcSingle(ts, px, lam, v) - KcSingle(ts, py, lam, v) IN d * d)
